@@ -154,6 +154,7 @@ func runCheck(propID, tier, repoDir, outDir string, overlay map[string][]byte, q
 		writeEvidence(outDir, spec, tier, nil, nil, []string{err.Error()}, time.Since(start).Seconds(), nil)
 		return 2
 	}
+	theProgram = prog
 	c := &Ctx{P: prog, Tier: tier, Prop: propID}
 	rules := append([]RuleFunc{}, spec.Rules...)
 	if tier == "thorough" {
